@@ -61,6 +61,12 @@ LABEL_POOLS = [
     [0, 'a', ('b', 1), 2, ('c', (0, 1))],                                  # mixed: unsortable
     [1.5, 2.5, -0.25, 7.0, 0.5],                                           # floats
     [0, 1.5, 'a', ('n', (1.5, 'z')), 3],
+    # NumPy scalars / Fractions *inside* tuple labels (np.nonzero coordinates, measured values); every shape has its own leading
+    # string, so NumPy's `==` is never asked to compare a scalar with a tuple
+    [('p2', np.int64(0), np.int64(3)), ('p2', np.int64(1), np.int64(2)), ('p2', np.int64(1), np.int64(0)), ('p1', np.int32(7)),
+     ('qf', np.float32(1.5)), ('qf', np.float64(-0.25))],
+    [('qn', (np.int64(1), np.int64(2))), ('qn', (np.int64(0), np.int64(5))), ('qm', ('w', (np.int8(3), np.float32(0.5)))),
+     ('fr', F(1, 2)), ('fr', F(-3, 4)), ('fn', (F(5, 8), np.int64(2)))],
 ]
 
 
@@ -74,8 +80,8 @@ def pv(x):
         return 'b1' if x else 'b0'
     if isinstance(x, (int, np.integer)):
         return f'i{int(x)}'
-    if isinstance(x, (float, np.floating)):
-        fr = F(float(x))
+    if isinstance(x, (float, np.floating, F)):
+        fr = F(x) if isinstance(x, F) else F(float(x))
         return f'f{fr.numerator}/{fr.denominator}'
     if isinstance(x, str):
         return 's' + x.encode().hex()
@@ -84,6 +90,28 @@ def pv(x):
     if isinstance(x, list):
         return 'L(' + ','.join(pv(v) for v in x) + ')'
     raise TypeError(repr(x))
+
+
+def has_inner(labels):
+    """some tuple label holds a NumPy scalar or a Fraction (possibly one level deeper)"""
+    def inner(x):
+        return isinstance(x, (np.generic, F)) or isinstance(x, tuple) and any(inner(y) for y in x)
+    return any(isinstance(v, tuple) and any(inner(x) for x in v) for v in labels)
+
+
+def lsrc(x):
+    """Python source of a label / container of labels that keeps NumPy scalars and Fractions what they are"""
+    if isinstance(x, np.generic):
+        return f'np.{type(x).__name__}({x.item()!r})'
+    if isinstance(x, F):
+        return f'F({x.numerator}, {x.denominator})'
+    if isinstance(x, tuple):
+        return '(' + ''.join(lsrc(v) + ', ' for v in x) + ')'
+    if isinstance(x, list):
+        return '[' + ', '.join(lsrc(v) for v in x) + ']'
+    if isinstance(x, dict):
+        return '{' + ', '.join(f'{lsrc(k)}: {lsrc(v)}' for k, v in x.items()) + '}'
+    return repr(x)
 
 
 def ratl(xs):
@@ -106,10 +134,10 @@ def gen_bqm_src(r):
                 u, v = (labels[i], labels[j]) if r.random() < .5 else (labels[j], labels[i])
                 quad[(u, v)] = r.choice([0.0, 0.125, -1.5, 2.0, 0.75, -3.25])
     off = r.choice([0.0, 0.0, 1.5, -2.25, 7.0])
-    src = f'bqm = dimod.{cls}({lin!r}, {quad!r}, {off!r}, {vt!r})'
+    src = f'bqm = dimod.{cls}({lsrc(lin)}, {lsrc(quad)}, {off!r}, {vt!r})'
     extra = [v for v in labels if v not in lin and not any(v in k for k in quad)]
     for v in extra:
-        src += f'\nbqm.add_variable({v!r})'
+        src += f'\nbqm.add_variable({lsrc(v)})'
     return src, cls
 
 
@@ -163,7 +191,7 @@ def gen_ss_src(r):
     endt = r.choice(['float', 'float', 'float32', 'int'])
     if endt == 'int':
         en = [int(e) for e in en]
-    src = (f"ss = dimod.SampleSet.from_samples((np.array({rows!r}, dtype='{dt}').reshape({m}, {n}), {labels!r}), {vt!r}, "
+    src = (f"ss = dimod.SampleSet.from_samples((np.array({rows!r}, dtype='{dt}').reshape({m}, {n}), {lsrc(labels)}), {vt!r}, "
            f"energy=np.array({en!r}, dtype='{endt}'), num_occurrences=np.array({occ!r}, dtype='{r.choice(['int', 'int32'])}'), "
            f"sort_labels={r.random() < .5}, info={info}{vec})")
     return src, vt, dt, m, n
@@ -218,7 +246,7 @@ def check_bqm(ctx, r, lines, expect, meta):
             ok = False; err = e
         ctx.tick('bqm ' + name + ('' if ok else ':raises'))
         ctx.case(('bqm', name, src), nontrivial=len(bqm.variables) > 0, sample=dict(source=src, route=code) if name == 'json' and nested else None)
-        cls_in = 'nested tuple labels' if nested else 'labels'
+        cls_in = 'tuple labels holding NumPy scalars / Fractions' if has_inner(bqm.variables) else 'nested tuple labels' if nested else 'labels'
         if not ok:
             ctx.fail('property', 'BQM ' + name, cls_in, f'{type(err).__name__}: {err}', repro=PRE + src + '\n' + code + '\nassert bqm_table(new) == bqm_table(bqm)',
                      detail=dict(source=src, route=code))
@@ -266,6 +294,8 @@ def check_ss(ctx, r, lines, expect, meta):
         if not ok:
             if '.reshape(())' in src and isinstance(err, TypeError):
                 icls = 'info with a 0-d array'
+            elif has_inner(ss.variables):
+                icls = 'tuple labels holding NumPy scalars / Fractions'
             ctx.fail('property', 'SampleSet ' + name, icls, f'{type(err).__name__}: {err}',
                      repro=PRE + src + '\n' + code + '\nassert ss_table(new) == ss_table(ss)', detail=dict(source=src, route=code))
             continue
@@ -425,20 +455,27 @@ def check_ndarray(ctx, r, lines, expect, meta):
 def check_labels(ctx, r, lines, expect, meta):
     pool = r.choice(LABEL_POOLS)
     labels = r.sample(pool, r.randint(0, len(pool)))
-    if r.random() < .3:
+    if r.random() < .3 and not any(isinstance(v, tuple) and any(isinstance(x, tuple) for x in v) for v in labels):
         labels = [np.int64(v) if isinstance(v, int) else np.float32(v) if isinstance(v, float) else v for v in labels]
-    src = f'vs = dimod.variables.Variables({[v.item() if isinstance(v, np.generic) else v for v in labels]!r})'
+    src = f'vs = dimod.variables.Variables({lsrc(labels)})'
+    rp = (PRE + 'from dimod.variables import iter_deserialize_variables\n' + src +
+          '\nback = dimod.variables.Variables(iter_deserialize_variables(json.loads(json.dumps(vs.to_serializable()))))\nassert list(back) == list(vs), list(back)')
+    inner = any(isinstance(v, tuple) and any(isinstance(x, (np.generic, F)) or isinstance(x, tuple) and any(isinstance(y, (np.generic, F, tuple)) for y in x) for x in v) for v in labels)
+    icls = 'tuple labels holding NumPy scalars / Fractions' if inner else 'labels'
     vs = Variables(labels)
-    ser = vs.to_serializable()
-    back = Variables(iter_deserialize_variables(json.loads(json.dumps(ser))))
-    ctx.tick('Variables.to_serializable'); ctx.case(('labels', repr(labels)), nontrivial=bool(labels))
-    if list(back) != list(vs) or any(isinstance(a, tuple) != isinstance(b, tuple) or isinstance(a, str) != isinstance(b, str) for a, b in zip(back, vs)):
-        ctx.fail('property', 'Variables.to_serializable', 'labels', f'{list(vs)!r} came back as {list(back)!r}',
-                 repro=PRE + 'from dimod.variables import iter_deserialize_variables\n' + src +
-                 '\nback = dimod.variables.Variables(iter_deserialize_variables(json.loads(json.dumps(vs.to_serializable()))))\nassert list(back) == list(vs), list(back)',
-                 detail=dict(source=src))
+    ctx.tick('Variables.to_serializable'); ctx.case(('labels', lsrc(labels)), nontrivial=bool(labels))
+    try:
+        ser = vs.to_serializable()
+        text = json.dumps(ser)
+        text2 = json.dumps(ser, cls=DimodEncoder)
+        back = Variables(iter_deserialize_variables(json.loads(text)))
+    except Exception as e:  # noqa
+        ctx.fail('property', 'Variables.to_serializable', icls, f'{type(e).__name__}: {e} for {list(vs)!r}', repro=rp, detail=dict(source=src))
+        return
+    if list(back) != list(vs) or text != text2 or any(isinstance(a, tuple) != isinstance(b, tuple) or isinstance(a, str) != isinstance(b, str) for a, b in zip(back, vs)):
+        ctx.fail('property', 'Variables.to_serializable', icls, f'{list(vs)!r} came back as {list(back)!r}', repro=rp, detail=dict(source=src))
     lines.append('labels ' + (','.join(pv(v.item() if isinstance(v, np.generic) else v) for v in labels) or '-'))
-    expect.append('ok ' + pv(json.loads(json.dumps(ser))) + ' ' + (','.join(pv(v) for v in back) or '-'))
+    expect.append('ok ' + pv(json.loads(text)) + ' ' + (','.join(pv(v) for v in back) or '-'))
     meta.append(('labels', src))
 
 
